@@ -251,20 +251,25 @@ pub fn solve_sys(a: &[f64], b: &[f64]) -> Vec<f64> {
         let mut solutions = Vec::with_capacity(b.len());
         let b = row_to_col_major(b, n);
 
+        // symmetric with a positive diagonal is only necessary for positive definiteness: take the
+        // Cholesky route only if the factorisation actually succeeds, otherwise fall back to LU
         if is_positive_definite(a) {
-            let l = cholesky(a);
-            for i in 0..nsys {
-                let sol = cholesky_solve(&l, &b[(i * n)..((i + 1) * n)]);
-                assert_eq!(sol.len(), n);
-                solutions.extend_from_slice(&sol);
+            let (l, positive_definite) = cholesky_factor(a);
+            if positive_definite {
+                for i in 0..nsys {
+                    let sol = cholesky_solve(&l, &b[(i * n)..((i + 1) * n)]);
+                    assert_eq!(sol.len(), n);
+                    solutions.extend_from_slice(&sol);
+                }
+                return col_to_row_major(&solutions, n);
             }
-        } else {
-            let (lu, piv) = lu(a);
-            for i in 0..nsys {
-                let sol = lu_solve(&lu, &piv, &b[(i * n)..((i + 1) * n)]);
-                assert_eq!(sol.len(), n);
-                solutions.extend_from_slice(&sol);
-            }
+        }
+
+        let (lu, piv) = lu(a);
+        for i in 0..nsys {
+            let sol = lu_solve(&lu, &piv, &b[(i * n)..((i + 1) * n)]);
+            assert_eq!(sol.len(), n);
+            solutions.extend_from_slice(&sol);
         }
 
         col_to_row_major(&solutions, n)
@@ -300,13 +305,17 @@ pub fn solve(a: &[f64], b: &[f64]) -> Vec<f64> {
 
     #[cfg(not(feature = "lapack"))]
     {
+        // symmetric with a positive diagonal is only necessary for positive definiteness: take the
+        // Cholesky route only if the factorisation actually succeeds, otherwise fall back to LU
         if is_positive_definite(a) {
-            let l = cholesky(a);
-            cholesky_solve(&l, b)
-        } else {
-            let (lu, piv) = lu(a);
-            lu_solve(&lu, &piv, b)
+            let (l, positive_definite) = cholesky_factor(a);
+            if positive_definite {
+                return cholesky_solve(&l, b);
+            }
         }
+
+        let (lu, piv) = lu(a);
+        lu_solve(&lu, &piv, b)
     }
 }
 
